@@ -10,8 +10,8 @@
 import os, json, re
 from . import lib
 
-STATE_EVENTS = ("Config", "Obj", "SetUp", "SetCalib", "AttGeom", "AttImg", "AttTab")
-MC_ACTIONS = ("DoSetUp", "DoRelated", "DoRelatedSmall", "DoWhole", "DoSetCalib")
+STATE_EVENTS = ("Config", "Obj", "Mod", "SetUp", "SetCalib", "AttGeom", "AttImg", "AttTab")
+MC_ACTIONS = ("DoSetUp", "DoRelated", "DoRelatedSmall", "DoWhole", "DoSetCalib", "DoModify")
 
 
 def _sig(o):
@@ -114,8 +114,8 @@ def run(ctx):
                 nsample += 1
                 if nsample % 997 == 1:
                     ctx.sample({"object": osig, "config": cfgname, "line": _short(rec)})
-            elif e in ("SetUp", "Triv", "Eff", "AttTab", "SetCalib"):
-                ctx.nontrivial("|".join([cfgname.split(" ")[0], osig, e, str(rec.get("ok")), str(rec.get("err")), str(rec.get("val"))]))
+            elif e in ("SetUp", "Triv", "Eff", "AttTab", "SetCalib", "Mod"):
+                ctx.nontrivial("|".join([cfgname.split(" ")[0], osig, e, str(rec.get("ok")), str(rec.get("err")), str(rec.get("val")), str(rec.get("what"))]))
         if at is not None or not ok:
             ctx.violation("trace not consumed (line %s)" % at, p)
             continue
@@ -144,7 +144,7 @@ def run(ctx):
             ctx.violation("%d recorded calls not explained by Norm.tla, first (line %d): %s" % (len(newbad), newbad[0], json.dumps(_short(first))[:400]), rp)
     # vacuity guards on the recorded material (a replayed file is whatever it is)
     if not ctx.replay:
-        for e in ("RV", "Whole", "RVF", "WholeF", "Eff", "Triv", "SetUp", "AttTab", "SetCalib"):
+        for e in ("RV", "Whole", "RVF", "WholeF", "Eff", "Triv", "SetUp", "AttTab", "SetCalib", "Mod"):
             if per_event.get(e, 0) == 0:
                 raise lib.ModelFailure("no %s line was recorded" % e)
         if chords == 0:
